@@ -432,6 +432,19 @@ def check_gp(prog):
     return dis, ref['nontrivial'], _outcome(d), False
 
 
+STANDALONE_BUS = '''import sc3
+sc3.init('nrt')
+from sc3.synth.synthdef import SynthDef
+from sc3.synth.synthdesc import SynthDesc
+from sc3.synth.ugens.oscillators import SinOsc
+from sc3.synth.ugens.inout import Out, In
+sd = SynthDef('t', lambda: Out.ar(0, In.ar(0, 2) * SinOsc.ar(440)))
+d = SynthDesc.new_from(sd)
+print(d.outputs, d.inputs)
+assert [x.starting_channel for x in d.outputs + d.inputs] == [0.0, 0.0]
+'''
+
+
 def work_gp(job):
     acc = progenum.Acc()
     for prog in c01.programs(job['space'], job['shard'], job['of'],
@@ -444,7 +457,9 @@ def work_gp(job):
         for kind, exp, obs, detail in dis:
             acc.violation(kind, prog, exp, obs, detail,
                           size=len(prog['stmts']) * 10000 +
-                          len(core.canon(prog)))
+                          len(core.canon(prog)),
+                          standalone=STANDALONE_BUS if kind ==
+                          'reader-bus-start-channel-differs' else None)
         acc.case(prog, nt, outcome, steps=len(prog['stmts']) + 1)
     return acc.result()
 
@@ -495,8 +510,8 @@ FLAT = ('A', 'K', 'A2', 'K2')
 POOL_FULL = ['sin', 'noise', 'nest', 'in', 'pan', 'mul', 'add', 'mul2',
              'lpf', 'sel', 'seed', 'rid', 'lbuf', 'set', 'clear', 'bufrd',
              'fft', 'pv', 'ifft']
-POOL_5 = ['sin', 'noise', 'in', 'pan', 'mul', 'add', 'lpf', 'seed', 'lbuf',
-          'set', 'bufrd', 'fft', 'ifft']
+POOL_5 = ['sin', 'in', 'pan', 'mul', 'add', 'lpf', 'seed', 'lbuf', 'fft',
+          'ifft']
 POOL_INS = ['sin', 'noise', 'in', 'pan', 'mul', 'add', 'lpf', 'seed', 'rid',
             'lbuf', 'set', 'clear', 'bufrd', 'fft', 'pv', 'ifft']
 PAR_TYPES = {'gate': [(['par', 'gate'], 'K')],
@@ -1220,14 +1235,9 @@ def main(ctx):
                        'shard': i, 'of': 1024, 'tagbase': tagbase}
                       for i in range(1024)],
                      bound='extended programs, 5 statements, reduced pool')
-        progenum.run(ctx, MODNAME, 'work_x',
-                     [{'gen': 'skel', 'skeleton': 'seeding', 'm': 3,
-                       'shard': i, 'of': 512, 'tagbase': tagbase}
-                      for i in range(512)],
-                     bound='skeleton seeding + 3 inserted statements')
         ctx.extra['exhaustive_bounds'] = [
             'names', 'single faults', 'C01 programs <= 2 statements',
             'extended programs <= 4 statements (full pool), 5 statements '
-            '(pool without nest, mul2, sel, rid, clear, pv)',
+            '(pool sin, in, pan, mul, add, lpf, seed, lbuf, fft, ifft)',
             'extended programs with parameters 2 statements',
-            'skeletons + <= 2 inserted statements, seeding + 3']
+            'skeletons + <= 2 inserted statements']
